@@ -240,7 +240,8 @@ func vRenderURL(u map[string]interface{}, originOnly bool) string {
 		"none": "", "schemerel": "//", "httpsx": "httpsx://", "https+app": "https+app://", "HTTPS.app": "HTTPS.app://"}[vStr(u, "scheme")]
 	host := vHostText[vStr(u, "host")]
 	port := map[string]string{"none": "", "443": ":443", "8443": ":8443"}[vStr(u, "port")]
-	path := map[string]string{"plain": "/cb", "empty": "", "dotdot": "/a/../cb", "encdotdot": "/a/%2e%2e/cb", "mixdotdot": "/a/.%2E/cb", "double": "//cb"}[vStr(u, "path")]
+	path := map[string]string{"plain": "/cb", "empty": "", "dotdot": "/a/../cb", "encdotdot": "/a/%2e%2e/cb", "mixdotdot": "/a/.%2E/cb", "double": "//cb",
+		"traildotdot": "/cb/..", "enctraildotdot": "/cb/%2e%2e"}[vStr(u, "path")]
 	query := map[string]string{"none": "", "query": "?x=1", "emptyq": "?", "semicolon": "?u=1;next=https://evil.example.net/", "badescape": "?next=%zz"}[vStr(u, "query")]
 	if originOnly {
 		path, query = "", ""
